@@ -75,7 +75,8 @@ def gen_message(rng):
 
 NAME_SUFFIX = ['', '', '', '_caf\xe9', '_中文', '_\U0001d4b3']
 HOSTILE_NAMES = ['test_<&>', 'test_"q\'', 'test_]]>', 'test a b',
-                 'test_\U0001f600', 'test_[x/y]', 'test_&amp;']
+                 'test_\U0001f600', 'test_[x/y]', 'test_&amp;',
+                 'test_version_1.2', 'test_a.b.c', 'test_(x=0.5)']
 
 
 def run_case(case):
@@ -108,6 +109,13 @@ def run_case(case):
             if kind == 'subtests':
                 t['subs'] = rng.choice([['F'], ['P', 'E'], ['F', 'E', 'P'],
                                         ['F', 'F']])
+                r = rng.random()
+                if r < 0.3:
+                    t['subkw'] = {'x': 0.5}
+                elif r < 0.5:
+                    t['submsg'] = 'see section 3.1'
+                elif r < 0.6:
+                    t['subkw'] = {'path': 'a.b/c.d'}
             tests.append(t)
         nodes.append({'t': 'class',
                       'name': 'TestX%d%s' % (c, rng.choice(['', '', '\xc9'])),
@@ -233,6 +241,14 @@ def run_case(case):
                 c = truth.calibrate_test(modname, node['name'], ts)
                 mine = [g for g in got if g[0] == ts['name'] or
                         g[0].startswith(ts['name'] + ' ')]
+                if ts['kind'] == 'subtests':
+                    # a sub-test is named '<method> <description>': the
+                    # description must be the one unittest gives it
+                    descs = [n.split(') ', 1)[1] for n in c['F'] + c['E']
+                             if ') ' in n]
+                    mine = [g for g in mine
+                            if not (g[1] or g[2]) or
+                            g[0][len(ts['name']) + 1:] in descs]
                 nF = len(c['F'])
                 nE = len(c['E'])
                 nU = len(c['U'])
